@@ -678,6 +678,9 @@ func runC02(c *Ctx) {
 			c02RunOne(r, cfg, s, ops, bk, keys, idx == 0 && cfg.kind == drv.Bolt && !cfg.auto && !cfg.goAPI)
 		}
 	})
+	if c.Only == "" {
+		runC02Faults(r)
+	}
 	r.Require("ops", 10000)
 	r.Require("predicted_errors", 1000)
 	r.Require("audit_reads", 10000)
